@@ -1,23 +1,41 @@
-//! `std::sync::mpsc` replacement: unbounded channel over shuttle's, with a working
-//! `recv_timeout` on the simulated clock and an event per operation.
+//! `std::sync::mpsc` replacement: unbounded channel. Dual mode: inside a simulation it is
+//! shuttle's channel with a working `recv_timeout` on the simulated clock and an event per
+//! operation; outside one it is the std channel (real-thread fidelity cross-check).
 
 pub use std::sync::mpsc::{RecvError, RecvTimeoutError, SendError, TryRecvError};
 use std::time::Duration;
 
 #[derive(Debug)]
+enum Tx<T> {
+    Sim(shuttle::sync::mpsc::Sender<T>),
+    Std(std::sync::mpsc::Sender<T>),
+}
+#[derive(Debug)]
+enum Rx<T> {
+    Sim(shuttle::sync::mpsc::Receiver<T>),
+    Std(std::sync::mpsc::Receiver<T>),
+}
+
+#[derive(Debug)]
 pub struct Sender<T> {
-    inner: shuttle::sync::mpsc::Sender<T>,
+    inner: Tx<T>,
     id: u64,
 }
 #[derive(Debug)]
 pub struct Receiver<T> {
-    inner: shuttle::sync::mpsc::Receiver<T>,
+    inner: Rx<T>,
     id: u64,
 }
 
 impl<T> Clone for Sender<T> {
     fn clone(&self) -> Self {
-        Sender { inner: self.inner.clone(), id: self.id }
+        Sender {
+            inner: match &self.inner {
+                Tx::Sim(s) => Tx::Sim(s.clone()),
+                Tx::Std(s) => Tx::Std(s.clone()),
+            },
+            id: self.id,
+        }
     }
 }
 
@@ -25,40 +43,47 @@ thread_local! {
     static NEXT_ID: std::cell::Cell<u64> = const { std::cell::Cell::new(0) };
 }
 
-/// reset the channel-id counter (called at the start of every simulated run by the harness so
-/// that ids are a function of the run, not of the process history)
+/// reset the channel-id counter (called at the start of every simulated run so that ids are a
+/// function of the run, not of the process history)
 pub fn reset_ids() {
     NEXT_ID.with(|c| c.set(0));
 }
 
 pub fn channel<T>() -> (Sender<T>, Receiver<T>) {
-    if !crate::in_sim() {
-        panic!("HARNESS-ERROR: mcmc_sim::mpsc::channel used outside a simulation");
-    }
     let id = NEXT_ID.with(|c| {
         let v = c.get();
         c.set(v + 1);
         v
     });
-    let (tx, rx) = shuttle::sync::mpsc::channel();
-    (Sender { inner: tx, id }, Receiver { inner: rx, id })
+    if crate::in_sim() {
+        let (tx, rx) = shuttle::sync::mpsc::channel();
+        (Sender { inner: Tx::Sim(tx), id }, Receiver { inner: Rx::Sim(rx), id })
+    } else {
+        let (tx, rx) = std::sync::mpsc::channel();
+        (Sender { inner: Tx::Std(tx), id }, Receiver { inner: Rx::Std(rx), id })
+    }
 }
 
 impl<T> Sender<T> {
     pub fn send(&self, t: T) -> Result<(), SendError<T>> {
-        let r = self.inner.send(t);
-        match &r {
-            Ok(()) => {
-                crate::sim::event("send", self.id);
-                crate::sim::count("sends", 1);
-                crate::sim::set_counter("sleeps_since_last_send", 0);
-            }
-            Err(_) => {
-                crate::sim::event("send_err", self.id);
-                crate::sim::count("send_errs", 1);
+        match &self.inner {
+            Tx::Std(s) => s.send(t),
+            Tx::Sim(s) => {
+                let r = s.send(t).map_err(|e| SendError(e.0));
+                match &r {
+                    Ok(()) => {
+                        crate::sim::event("send", self.id);
+                        crate::sim::count("sends", 1);
+                        crate::sim::set_counter("sleeps_since_last_send", 0);
+                    }
+                    Err(_) => {
+                        crate::sim::event("send_err", self.id);
+                        crate::sim::count("send_errs", 1);
+                    }
+                }
+                r
             }
         }
-        r
     }
     pub fn channel_id(&self) -> u64 {
         self.id
@@ -67,22 +92,35 @@ impl<T> Sender<T> {
 
 impl<T> Receiver<T> {
     pub fn recv(&self) -> Result<T, RecvError> {
-        let r = self.inner.recv();
-        crate::sim::event(if r.is_ok() { "recv" } else { "recv_disc" }, self.id);
-        r
+        match &self.inner {
+            Rx::Std(r) => r.recv(),
+            Rx::Sim(r) => {
+                let v = r.recv().map_err(|_| RecvError);
+                crate::sim::event(if v.is_ok() { "recv" } else { "recv_disc" }, self.id);
+                v
+            }
+        }
     }
     pub fn try_recv(&self) -> Result<T, TryRecvError> {
-        let r = self.inner.try_recv();
-        match &r {
-            Ok(_) => crate::sim::event("recv", self.id),
-            Err(TryRecvError::Empty) => {}
-            Err(TryRecvError::Disconnected) => crate::sim::event("recv_disc", self.id),
+        match &self.inner {
+            Rx::Std(r) => r.try_recv(),
+            Rx::Sim(r) => {
+                let v = r.try_recv();
+                match &v {
+                    Ok(_) => crate::sim::event("recv", self.id),
+                    Err(TryRecvError::Empty) => {}
+                    Err(TryRecvError::Disconnected) => crate::sim::event("recv_disc", self.id),
+                }
+                v
+            }
         }
-        r
     }
-    /// `d == 0`: one non-blocking poll. Otherwise poll, sleeping on the simulated clock, until
-    /// the deadline.
+    /// Inside a simulation: `d == 0` is one non-blocking poll, otherwise poll, sleeping on the
+    /// simulated clock, until the deadline. Outside: the std implementation.
     pub fn recv_timeout(&self, d: Duration) -> Result<T, RecvTimeoutError> {
+        if let Rx::Std(r) = &self.inner {
+            return r.recv_timeout(d);
+        }
         let deadline = crate::sim::clock_ns().saturating_add(d.as_nanos().min(u64::MAX as u128) as u64);
         loop {
             match self.try_recv() {
